@@ -45,6 +45,7 @@ user, 1..4 distributed peers, 5..8 other users), connection ids are creation ord
         now — is faulty; `search` is issued, the loop run to quiescence, each listed op likewise; 11 virtual
         seconds pass for the time-out modes, the block is lifted, 15 more virtual seconds pass:
         mode "fail-before"  : write() raises ConnectionResetError, no byte accepted;
+        mode "fail-mid"     : write() raises ConnectionResetError after half of the frame went out (no whole reply);
         mode "late-reset"   : the bytes are accepted and delivered, then drain() raises (reset after the flush);
         mode "timeout"      : the bytes are accepted and delivered, drain() never returns (the library's 10 s write
                               time-out raises ConnectionWriteError and closes);
@@ -88,7 +89,8 @@ SEARCH_CODE = 3
 
 COMPOSITE = ('burst', 'fault', 'join', 'rfault')
 FAULT_MODES = ('fail', 'block', 'late', 'timeout')
-RFAULT_MODES = ('fail-before', 'late-reset', 'timeout', 'slow-timeout', 'block')
+RFAULT_MODES = ('fail-before', 'fail-mid', 'late-reset', 'timeout', 'slow-timeout', 'block')
+RFAULT_NOT_ACCEPTED = ('fail-before', 'fail-mid')      # the socket did not accept the whole reply
 
 
 def _flat_ops(op):
@@ -411,6 +413,9 @@ async def _scenario(loop, case: dict):
                 if mode == 'fail-before':
                     lw.reset()
                     raise ConnectionResetError('scripted reset: no byte accepted')
+                if mode == 'fail-mid':
+                    lw.fail_after = len(lw.sent) + len(data) // 2     # half a frame goes out, then the reset
+                    return orig_write(data)
                 if mode == 'slow-timeout':
                     lw.hold = True             # accepted, not read by the asker; FakeWriter.close() flushes it
                 orig_write(data)
@@ -846,7 +851,7 @@ def _monitor(case: dict, trace: list) -> list[Violation]:
     Nobody may receive a carrier more often than it was sent to us, nor with other user / ticket / query.
 
     REPLIES are counted at the asking user over ALL of its connections: per carrier with matches exactly one (when the first
-    write of the reply was refused before a byte was accepted — "rfault fail-before" — none or one), and over the whole
+    write of the reply was not accepted whole by the socket — "rfault fail-before / fail-mid" — none or one), and over the whole
     history never more replies per (user, ticket) than carriers issued for it."""
     vs: list[Violation] = []
     layout = case.get('layout', 1)
@@ -977,7 +982,7 @@ def _monitor(case: dict, trace: list) -> list[Violation]:
                         want_r.append({'to': r[5], 'ticket': r[6], 'username': ME, 'visible': v, 'locked': l})
                 got_r = [r for r in s['replies'] if r['to'] not in BLOCKED_SEARCH and r['to'] != ME]
                 key = lambda r: (r['to'], r['ticket'], str(r['username']), r['visible'], r['locked'])
-                if op[0] == 'rfault' and op[1] == 'fail-before' and s.get('fault_hit') is not None:
+                if op[0] == 'rfault' and op[1] in RFAULT_NOT_ACCEPTED and s.get('fault_hit') is not None:
                     # the socket refused the first write of a reply (the one with ticket `fault_hit`, to op[2]'s user)
                     # before accepting a byte: nothing can have arrived from that attempt; whether the library tries
                     # again is not demanded
@@ -1383,6 +1388,23 @@ WITNESSES = {
 }
 
 
+def _corpus_cases() -> list[dict]:
+    """failing inputs of earlier seeded / own changes (corpus/C14/*.json); the property holds on them on the unchanged tree"""
+    import json
+    out = []
+    p = common.CORPUS / 'C14'
+    if p.is_dir():
+        for f in sorted(p.glob('*.json')):
+            try:
+                c = json.loads(f.read_text())
+                c = dict(c.get('case', c))
+                c['kind'] = 'corpus'
+                out.append(c)
+            except ValueError:
+                pass
+    return out
+
+
 class C14(Property):
     id = 'C14'
     props_module = 'AioslskVerif.Props.C14'
@@ -1394,8 +1416,19 @@ class C14(Property):
             'queries incl. empty, exclusion-only, non-word, unicode, 300 chars) over 4 share layouts (nothing / '
             'public / public+friends+users / locked only), generated from VERIF_SEED (families: branch root, '
             'below a parent, churn = children joining/leaving between requests, mixed sources, back-to-back '
-            'bursts, no session, faulty/slow child [monitor only: the write to a chosen child fails, or its drain() blocks '
-            'while that child or a sibling is closed / a child joins]); a case is non-trivial when some carrier was forwarded to a child or answered; '
+            'bursts, no session, askers with 1-2 peer connections of their own [pconn], '
+            'join = 1-3 carriers from the server / the parent handled WHILE A CHILD IS BEING ADDED [the carriers are handed '
+            'to the library 0-5 loop iterations after it began to write our branch level to the joining peer, or while '
+            'drain() of that socket blocks (released later / never: 10 s write time-out), also with a close or a further '
+            'join meanwhile; modelled: SOp.addBegin/addEnd], '
+            'faulty/slow child [monitor only: the write to a chosen child fails before a byte is accepted, or is accepted '
+            'and then fails, or its drain() blocks (released later / write time-out) while that child or a sibling is '
+            'closed / a child joins], '
+            'rfault [monitor only: the first write of a search reply towards the asker — on a connection of its own or one the '
+            'library opens — fails before a byte is accepted / is accepted and then reset / accepted and drain() never '
+            'returns (write time-out, bytes delivered at once or flushed at close) / blocks and is released; 0-2 open '
+            'peer connections of the asker, a second carrier or a new connection meanwhile; 15 virtual seconds observed '
+            'afterwards]); a case is non-trivial when some carrier was forwarded to a child or answered; '
             'distinct = distinct canonical (ops, layout)')
     assumptions = [
         'every asking user is reachable: the server answers GetPeerAddress and the direct peer connection '
@@ -1405,21 +1438,34 @@ class C14(Property):
         'which files match a query and how they split into visible / locked is C07/C08: here the expected answer '
         'is computed by the harness\'s own matcher on a plain vocabulary (lower/upper-case ASCII words, exclusion '
         'terms, no wildcards) and handed to the model as the abstract `answer` table',
-        'ops are separated by quiescence of the event loop; back-to-back carriers (burst) are compared as the '
-        'union of the per-carrier model outputs; faulty/slow-child cases (fault) are evaluated by the monitor only '
-        '(the model is atomic per op): every connection that was a child when the carrier arrived and still is a '
-        'live child at the end must have received it exactly once, nobody else anything',
+        'ops are separated by quiescence of the event loop; back-to-back carriers (burst) and carriers handled while an '
+        'add is suspended (join) are compared as the union of the per-carrier model outputs; faulty-socket cases (fault, '
+        'rfault) are evaluated by the monitor only (the model assumes every write goes through)',
+        '"current child" is read on what the remote ends see: an incoming distributed connection to which the library had '
+        'begun to write our branch level before the carrier was handed to the library, and that is open at both ends when '
+        'the op has quiesced, must receive the carrier exactly once (theorems C14_told_is_child, C14_adding_served, '
+        'C14_child_until_closed); in addition the connections the library lists as children before the op (for ops with '
+        'faults / membership changes: those still listed and open at the end). A connection that closes during the op '
+        '(either side, or the write time-out) is exempt; nobody may receive a carrier twice or altered',
+        'replies are counted at the asking user over all of its connections (own ones, ones the library opened, ones opened '
+        'for a later attempt): exactly one per carrier with matches — none or one when the socket refused the first write '
+        'before accepting a byte —, and over the whole history never more per (user, ticket) than carriers were issued',
+        'a fake socket delivers what write() accepted (at once, or at close when the asker is "slow"); drain() of a socket '
+        'closed cleanly meanwhile returns normally (asyncio flow control); virtual time only advances in the time-out modes '
+        '(< 30 s per history, below the 60 s peer read time-out)',
         'C13 assumptions for the tree part (debug.search_for_parent, reachable potential parents)',
         '"searches that originate from the logged-in user" is read on the session\'s user name; without a session '
         'nothing is demanded for own-name carriers',
     ]
     modelled = ('distributed.py: _on_server_search_request, _on_distributed_search_request, '
-                '_on_distributed_server_search_request, send_messages_to_children; search/manager.py: the three '
+                '_on_distributed_server_search_request, send_messages_to_children, and the suspension point of '
+                '_add_child (children.append before the awaited sends: SOp.addBegin / addEnd); search/manager.py: the three '
                 'carrier handlers and _query_shares_and_reply (session / own name / search-blocked / no-match '
                 'guards, reply fields, SearchRequestReceivedEvent); tree state = Model/Dist.lean (C13). '
                 'Exercised, not modelled: Network.send_peer_messages / get_peer_connection / '
                 'create_peer_connection (GetPeerAddress, direct vs indirect race, connection reuse), '
-                'PeerConnection.queue_messages / send_message (closing guard), SharesManager.query and '
+                'PeerConnection.queue_messages / send_message / _send (closing guard, write errors, 10 s write time-out), '
+                'SharesManager.query and '
                 'convert_items_to_file_data (abstract `answer`), zlib/codec of PeerSearchReply, reply task '
                 'bookkeeping, received_searches deque, has_slots_free/avg_speed/queue_size of the reply')
 
@@ -1431,7 +1477,7 @@ class C14(Property):
     def cases(self, seed, tier, widen=1):
         rng = random.Random(f'C14-{seed}')
         n = (8000 if tier == 'quick' else 200000) * widen
-        cs = [dict(c) for c in WITNESSES.values()]
+        cs = [dict(c) for c in WITNESSES.values()] + _corpus_cases()
         cs += [_gen_case(rng) for _ in range(n)]
         return cs
 
@@ -1489,6 +1535,21 @@ class C14(Property):
             if any(s['fwd'] or s['replies'] for s in tr):
                 res.nontrivial_keys.add(common.sha([c['ops'], c.get('layout', 1)]))
             for op, s in zip(c['ops'], tr):
+                if op[0] == 'join':
+                    res.count('join-mode:' + str(op[2][0]))
+                    t0 = s.get('told_at', {}).get(s.get('joined'))
+                    if t0 is not None and any(t is not None and t > t0 for t in s.get('inj') or []):
+                        res.count('event:carrier-handled-while-add-suspended')
+                    if s.get('joined') in s['children']:
+                        res.count('event:joined-as-child')
+                elif op[0] == 'rfault':
+                    res.count('rfault-mode:' + str(op[1]))
+                    if s.get('fault_hit') is not None:
+                        res.count('event:reply-write-met-faulty-socket')
+                    if len({x['conn'] for x in s['replies']}) > 1:
+                        res.count('event:replies-over-several-connections')
+                elif op[0] == 'fault':
+                    res.count('fault-mode:' + str(op[2]))
                 if any(o[0] == 'search' for o in _flat_ops(op)):
                     b = s['before']
                     res.count('search-state:children=%d' % len(b['children']))
@@ -1519,7 +1580,7 @@ class C14(Property):
                         model[i][k] if k < len(model[i]) else None,
                         f'op #{k} {c["ops"][k] if k < len(c["ops"]) else ""}'))
             res.violations += _monitor(c, tr)
-            if len(res.samples) < 3 and 4 <= len(c['ops']) <= 9 and c['kind'] != 'witness' and \
+            if len(res.samples) < 3 and 4 <= len(c['ops']) <= 9 and c['kind'] not in ('witness', 'corpus') and \
                     any(s['replies'] for s in tr):
                 res.samples.append({'case': c, 'impl': r['lines']})
         return res
